@@ -17,7 +17,7 @@ type pointSet struct {
 	labels []string
 }
 
-var classesMain = []string{"uniform", "uniform", "clustered", "clustered", "wide", "chain", "chain", "ties", "ring"}
+var classesMain = []string{"uniform", "uniform", "clustered", "clustered", "wide", "chain", "chain", "ties", "ring", "ring-near-tie"}
 
 // frame draws extent, aspect and centre of the region the points live in.
 func frame(t *rapid.T, labels *[]string) (E, aspect float64, c v2.Vec) {
@@ -170,10 +170,52 @@ func drawSet(t *rapid.T, nmin, nmax int, stress bool) pointSet {
 			}
 			pts = append(pts, b)
 		}
+	case "ring-near-tie":
+		// few points very close to one circle (in-circle tests decided by a margin of 1e-9..1e-6 of the
+		// radius) of which two are ALMOST level: a triangle edge that is nearly but not exactly horizontal
+		// (slope 1e7..1e9), where the circumcentre is most sensitive to how it is computed
+		if n > 8 {
+			n = 4 + n%5
+		}
+		if n < 4 {
+			n = 4
+		}
+		scatter := g.LogUniform(t, "rnt.scatter", 1e-9, 1e-6)
+		R := W
+		if H < R {
+			R = H
+		}
+		for i := 0; i < n; i++ {
+			l := fmt.Sprintf("p%d", i)
+			a := (float64(i) + 0.1 + 0.8*u01(t, l+".a")) * 2 * math.Pi / float64(n)
+			r := 1 + scatter*u11(t, l+".r")
+			pts = append(pts, v2.Vec{X: c.X + R*r*math.Cos(a), Y: c.Y + R*r*math.Sin(a)})
+		}
+		{
+			// make the point after a drawn one almost level with its mirror image about the vertical axis
+			i := rapid.IntRange(0, n-1).Draw(t, "rnt.i")
+			j := (i + 1 + rapid.IntRange(0, n-2).Draw(t, "rnt.j")) % n
+			d := g.LogUniform(t, "rnt.dy", 1.5e-9, 1e-7) * float64(1-2*rapid.IntRange(0, 1).Draw(t, "rnt.sign"))
+			dx := pts[i].X - c.X
+			y := pts[i].Y + d
+			if dy := y - c.Y; math.Abs(dy) < R {
+				// the mirrored position on the circle at that height, with its own radial scatter
+				x := math.Sqrt(R*R-dy*dy) * (1 + scatter*u11(t, "rnt.r"))
+				if dx > 0 {
+					x = -x
+				}
+				pts[j] = v2.Vec{X: c.X + x, Y: y}
+			}
+		}
+		labels = append(labels, fmt.Sprintf("ring-near-tie:scatter=1e%d", int(math.Floor(math.Log10(scatter)))))
 	case "ring":
 		// points near a circle with radial scatter (many nearly-cocircular 4-subsets,
 		// kept above the margin by the exact check), optionally a few inside
 		scatter := g.LogUniform(t, "ring.scatter", 1e-3, 0.3)
+		if rapid.IntRange(0, 2).Draw(t, "ring.tight") == 0 {
+			// nearly cocircular (the exact check keeps what is above the margin)
+			scatter = g.LogUniform(t, "ring.scatter-tight", 1e-8, 1e-3)
+		}
 		labels = append(labels, fmt.Sprintf("ring-scatter:1e%d", int(math.Floor(math.Log10(scatter)))))
 		for i := 0; i < n; i++ {
 			l := fmt.Sprintf("p%d", i)
@@ -265,6 +307,26 @@ func drawSet(t *rapid.T, nmin, nmax int, stress bool) pointSet {
 		}
 	}
 	labels = append(labels, "class:"+class, fmt.Sprintf("extent:1e%d", int(math.Floor(math.Log10(E)))))
+	// near ties: a pair of points that differ in y (or x) by 1e-12..1e-6 of the extent - edges that are
+	// almost but not exactly horizontal / vertical
+	if len(pts) >= 2 && rapid.IntRange(0, 3).Draw(t, "near-tie") == 0 {
+		k := rapid.IntRange(1, 3).Draw(t, "near-tie.pairs")
+		for q := 0; q < k; q++ {
+			l := fmt.Sprintf("nt%d", q)
+			a := rapid.IntRange(0, len(pts)-1).Draw(t, l+".a")
+			b := rapid.IntRange(0, len(pts)-1).Draw(t, l+".b")
+			if a == b {
+				continue
+			}
+			d := g.LogUniform(t, l+".d", 1e-12, 1e-6) * E * float64(1-2*rapid.IntRange(0, 1).Draw(t, l+".sign"))
+			if rapid.Bool().Draw(t, l+".x") {
+				pts[b].X = pts[a].X + d
+			} else {
+				pts[b].Y = pts[a].Y + d
+			}
+		}
+		labels = append(labels, "near-tie")
+	}
 	return pointSet{pts, class, labels}
 }
 
